@@ -790,9 +790,7 @@ func TestNQuadsStream(t *testing.T) {
 
 // ---- totality ---------------------------------------------------------------------------------
 
-type nqBytesCase struct {
-	Data []byte
-}
+type nqBytesCase = vk.BytesCase
 
 // a blank node label that contains "_:" (legal) triggers the known
 // object/graph-label split of gonum's grammar
@@ -852,6 +850,9 @@ func checkStatementConsistent(st *rdf.Statement, src string) (f *vk.Failure) {
 
 func checkNQBytes(c nqBytesCase) *vk.Failure {
 	vk.Sample("nq-total", c)
+	if len(c.Data) > maxBytesCase {
+		return nil
+	}
 	src := string(c.Data)
 	var st *rdf.Statement
 	var err error
@@ -917,9 +918,9 @@ func drawNQBytes(t *rapid.T) nqBytesCase {
 	}
 	switch rapid.IntRange(0, 7).Draw(t, "kind") {
 	case 0:
-		return nqBytesCase{valid("v")}
+		return nqBytesCase{Data: valid("v")}
 	case 1, 2, 3:
-		return nqBytesCase{mutate(t, valid("v"), valid("o"), 1024)}
+		return nqBytesCase{Data: mutate(t, valid("v"), valid("o"), 1024)}
 	case 4: // UCHAR escapes with hostile code points inside otherwise valid statements
 		esc := rapid.SampledFrom([]string{`\UFFFFFFFF`, `\U80000000`, `\U7FFFFFFF`, `\U00110000`, `\U0010FFFF`, `\uD800`, `\uDFFF`, `\u0000`, `\U0000000A`, `\u000D`, `"`, `\`, `>`, `\U0000003e`, `\u00`, `\U0010FFF`, `\uGGGG`, `\x41`}).Draw(t, "esc")
 		where := rapid.IntRange(0, 3).Draw(t, "where")
@@ -934,11 +935,11 @@ func drawNQBytes(t *rapid.T) nqBytesCase {
 		default:
 			s[0], s[2], s[3] = "_:s", `"x"^^<a:dt`+esc+`>`, "<a:g"+esc+">"
 		}
-		return nqBytesCase{[]byte(strings.Join(s, " ") + " .")}
+		return nqBytesCase{Data: []byte(strings.Join(s, " ") + " .")}
 	case 5, 6:
-		return nqBytesCase{[]byte(strings.Join(rapid.SliceOfN(rapid.SampledFrom(nqSoup), 0, 14).Draw(t, "soup"), ""))}
+		return nqBytesCase{Data: []byte(strings.Join(rapid.SliceOfN(rapid.SampledFrom(nqSoup), 0, 14).Draw(t, "soup"), ""))}
 	default:
-		return nqBytesCase{rapid.SliceOfN(rapid.Byte(), 0, 48).Draw(t, "bytes")}
+		return nqBytesCase{Data: rapid.SliceOfN(rapid.Byte(), 0, 48).Draw(t, "bytes")}
 	}
 }
 
